@@ -2,8 +2,12 @@ import Genq.Props.C07
 open Genq.Config
 open Genq.Doc
 open Genq.InputClosure
+open Genq.Lines
 #print axioms C07_casing_never_panics
 #print axioms C07_blank_enum_entry_would_panic
 #print axioms C07_usedLoop_stops
 #print axioms C07_recursive_inputs_terminate
 #print axioms C07_entry_before_fields_matters
+#print axioms C07_comment_scan_in_range
+#print axioms C07_old_split_out_of_range_witness
+#print axioms C07_parsePrecedingComment_tie
